@@ -90,12 +90,12 @@ class Execution:
         if spec is None:
             return None
         first = frame.f_code.co_firstlineno
-        limit = spec
+        limit, pred = spec if isinstance(spec, tuple) else (spec, None)
 
         def local(frame, event, arg):
             if event == "line":
                 rel = frame.f_lineno - first
-                if limit is None or rel <= limit:
+                if (limit is None or rel <= limit) and (pred is None or pred()):
                     self.point(("line", frame.f_code.co_name, rel))
             return local
 
